@@ -32,7 +32,7 @@ class C01(Prop):
     floors = {'quick': (300, 100), 'thorough': (5000, 2000)}
     must_reach = ['offline/ast_visitor:StlDiscreteTimeOfflineAstVisitor.visitPredicate']
     quick_cases = 2500
-    thorough_cases = 400000
+    thorough_cases = 3000000
     kind = 'dt'
 
     def cfg(self, rng):
